@@ -329,13 +329,19 @@ def form_case(ctx, form, via="dict", fallback="data", stream="general"):
     ctx.record(case, True)
 
 
-def md_safe(form):
+def md_form(form):
+    """the form as it can be written in a markdown table: md trims cells, so trim them here"""
+    import copy
+
+    f = copy.deepcopy(form)
     for s in impl.SHEETS:
-        for r in form.get(s) or []:
-            for k, v in r.items():
-                if isinstance(v, str) and (v != v.strip() or "\n" in v or "\r" in v or "|" in v or "\\" in v or "|" in k):
-                    return False
-    return True
+        for r in f.get(s) or []:
+            for k, v in list(r.items()):
+                if isinstance(v, str):
+                    if "\n" in v or "\r" in v:
+                        return None
+                    r[k] = v.strip() or "t"
+    return f
 
 
 def explore(ctx, factor, bs):
@@ -350,8 +356,8 @@ def explore(ctx, factor, bs):
     if big:
         SCRATCH.mkdir(parents=True, exist_ok=True)
         for _ in range(600 * factor):
-            form = c01_gen.general_form(rng, big=True)
-            if md_safe(form):
+            form = md_form(c01_gen.general_form(rng, big=True))
+            if form is not None:
                 form_case(ctx, form, via="md", stream="general")
         for i in range(250 * factor):
             form = c01_gen.general_form(rng, big=True)
